@@ -405,8 +405,15 @@ pub fn evaluate_single(cfg: &RunCfg, rec: &RunRecord) -> (Vec<Finding>, Facts) {
                 exhausted,
                 impossible,
                 skipped,
+                finish,
+                finish_count,
+                finish_last,
+                hint_bad,
             } = &c.res
             {
+                // size_hint() != len() is recorded as an observation only (stats): C03 speaks of
+                // the announced length, i.e. ExactSizeIterator::len()
+                let _ = hint_bad;
                 let n = c.arg;
                 let skipped = *skipped;
                 let want_len = |j: usize| -> usize {
@@ -446,6 +453,27 @@ pub fn evaluate_single(cfg: &RunCfg, rec: &RunRecord) -> (Vec<Finding>, Facts) {
                     bad = Some(format!(
                         "elements are not the consecutive positions from begin index {begin} (first taken with nth({skipped})): {:?}",
                         items.iter().map(|o| position(cfg, o)).collect::<Vec<_>>()
+                    ));
+                } else if *finish == 1
+                    && *finish_count != Some(announced - (skipped + items.len()).min(*announced))
+                {
+                    bad = Some(format!(
+                        "count() on the rest returned {:?}, {} elements were left of the announced {announced}",
+                        finish_count,
+                        announced - (skipped + items.len()).min(*announced)
+                    ));
+                } else if *finish == 2
+                    && finish_last.map(|o| position(cfg, &o))
+                        != if skipped + items.len() < *announced {
+                            Some((*begin + *announced - 1) as i128)
+                        } else {
+                            None
+                        }
+                {
+                    bad = Some(format!(
+                        "last() on the rest returned position {:?}, the chunk is [{begin}, {})",
+                        finish_last.map(|o| position(cfg, &o)),
+                        begin + announced
                     ));
                 } else if *announced < n && begin + announced != len {
                     bad = Some(format!(
@@ -1399,6 +1427,10 @@ pub fn evaluate_c19(cfg: &RunCfg, rec: &RunRecord) -> (Vec<Finding>, Facts) {
                         exhausted: false,
                         impossible: false,
                         skipped: 0,
+                        finish: 0,
+                        finish_count: None,
+                        finish_last: None,
+                        hint_bad: None,
                     },
                 });
             }
